@@ -106,6 +106,41 @@ def _run_driver(manifest_dir, crates, target_dir, out_dir, build=False, mono=Fal
 _mem = {}
 
 
+def module_regex(modules):
+    """regex matching a local module path used as a path prefix (`interp1d::strategies::`), longest first"""
+    import re
+    mods = sorted({m for m in modules if m}, key=lambda m: (-m.count('::'), -len(m), m))
+    if not mods:
+        return None
+    return re.compile(r'(?<![\w:])(?:' + '|'.join(re.escape(m) for m in mods) + r')::(?=[A-Za-z_<{])')
+
+
+def canonicalise_text(text, modules):
+    """Items are named independently of the module layout: `interp1d::strategies::cubic_spline::CubicSpline::thomas`
+    becomes `CubicSpline::thomas`.  Moving code between (private) modules, with the public paths kept by re-exports,
+    therefore does not change any name the checks see.  Two items that collapse to one name become ambiguous and are
+    not resolvable by name (anchors fail closed)."""
+    import re
+    rx = module_regex(modules)
+    if rx:
+        text = rx.sub('', text)
+    # an inherent impl placed in another module than its type prints as `<impl Type<T>>::f`; same-module form is `Type::<T>::f`
+    gen = r'<(?:[^<>]|<(?:[^<>]|<[^<>]*>)*>)*>'
+    text = re.sub(r'(?<![\w:])<impl ([A-Za-z_]\w*)(' + gen + r')?>::',
+                  lambda m: m.group(1) + ('::' + m.group(2) if m.group(2) else '') + '::', text)
+    return text
+
+
+def _load_canonical(path):
+    with open(path) as fh:
+        text = fh.read()
+    raw = json.loads(text)
+    modules = [m['path'] for m in raw.get('modules', [])]
+    f = json.loads(canonicalise_text(text, modules))
+    f['_modules'] = modules
+    return f
+
+
 def lib_facts():
     """Facts of the library crate at /repo's current working tree."""
     key = repo_hash()
@@ -119,8 +154,7 @@ def lib_facts():
         cfile = os.path.join(cdir, "facts-ndarray_interp.json")
         t0 = time.time()
         if os.path.exists(cfile):
-            with open(cfile) as fh:
-                f = json.load(fh)
+            f = _load_canonical(cfile)
             f["_cached"] = True
         else:
             # prune old cache entries
@@ -130,7 +164,7 @@ def lib_facts():
                     shutil.rmtree(p, ignore_errors=True)
             out = _run_driver(REPO, ["ndarray_interp"], os.path.join(TARGET, "lib" + TSUFFIX), cdir,
                               pkg_fingerprints=("ndarray-interp-",))
-            f = out["ndarray_interp"]
+            f = _load_canonical(cfile)
             f["_cached"] = False
         f["_extract_s"] = round(time.time() - t0, 2)
         f["_repo_hash"] = key
